@@ -221,3 +221,64 @@ func verifH_C06_paramkey() {
 	verifAssert((err == nil) == want, "C06 media type keys with parameters: the declared entry is chosen by exact string, then bare type, then type/*, and its schema decides")
 	verifReach("end")
 }
+
+//verif:harness id=C06 tier=quick,thorough witness=end bounds="multipart/form-data bodies (concrete text through the interpreted mime/multipart): object schema {s: string maxLength symbolic, n: integer minimum symbolic (all float64), f: string format binary}; parts s (text of 0-2 chars from a pool), n as application/json part from a pool of literals, f as a file part, each present or absent; required subset of {s,n}; the request is accepted exactly when every present part satisfies its property schema and the required ones are present"
+func verifH_C06_multipart() {
+	maxLen := verifNondetUint64("maxLen")
+	min := verifNondetFloat64("min")
+	verifAssume(min == min)
+	obj := &openapi3.Schema{Type: &openapi3.Types{"object"}, Properties: openapi3.Schemas{
+		"s": {Value: &openapi3.Schema{Type: &openapi3.Types{"string"}, MaxLength: &maxLen}},
+		"n": {Value: &openapi3.Schema{Type: &openapi3.Types{"integer"}, Min: &min}},
+		"f": {Value: &openapi3.Schema{Type: &openapi3.Types{"string"}, Format: "binary"}},
+	}}
+	req := verifChoose("required", 4)
+	if req&1 != 0 {
+		obj.Required = append(obj.Required, "s")
+	}
+	if req&2 != 0 {
+		obj.Required = append(obj.Required, "n")
+	}
+	body := ""
+	hasS, hasN, hasF := verifChoose("hasS", 2) == 1, verifChoose("hasN", 2) == 1, verifChoose("hasF", 2) == 1
+	sText := []string{"", "a", "ab"}[verifChoose("s", 3)]
+	nText := []string{"0", "7", "-3", "1.5", "\"x\""}[verifChoose("n", 5)]
+	if hasS {
+		body += "--XX\r\nContent-Disposition: form-data; name=\"s\"\r\n\r\n" + sText + "\r\n"
+	}
+	if hasN {
+		body += "--XX\r\nContent-Disposition: form-data; name=\"n\"\r\nContent-Type: application/json\r\n\r\n" + nText + "\r\n"
+	}
+	if hasF {
+		body += "--XX\r\nContent-Disposition: form-data; name=\"f\"; filename=\"f.bin\"\r\nContent-Type: application/octet-stream\r\n\r\nxyz\r\n"
+	}
+	body += "--XX--\r\n"
+	rb := &openapi3.RequestBody{Required: true, Content: openapi3.Content{"multipart/form-data": &openapi3.MediaType{Schema: &openapi3.SchemaRef{Value: obj}}}}
+	op := &openapi3.Operation{RequestBody: &openapi3.RequestBodyRef{Value: rb}}
+	input := verifBodyInput(op, "multipart/form-data; boundary=XX", body, true, &Options{})
+	err := ValidateRequestBody(context.Background(), input, rb)
+	ok := true
+	if hasS && uint64(len(sText)) > maxLen {
+		ok = false
+	}
+	if hasN {
+		switch nText {
+		case "0":
+			ok = ok && 0 >= min
+		case "7":
+			ok = ok && 7 >= min
+		case "-3":
+			ok = ok && -3 >= min
+		default:
+			ok = false // 1.5 and "x" are not integers
+		}
+	}
+	if req&1 != 0 && !hasS {
+		ok = false
+	}
+	if req&2 != 0 && !hasN {
+		ok = false
+	}
+	verifAssert((err == nil) == ok, "C06 multipart: the body is accepted exactly when its parts satisfy their property schemas and the required parts are present")
+	verifReach("end")
+}
